@@ -184,6 +184,7 @@ PROPS = {
         "noasync_also": True,
         "lean_props": ["ZarrsModel.Props.C04"],
         "harness": "c04",
+        "harness_also": ["c04a"],
         "rule": "C01's configurations and operations with fill-heavy data: half of the writes are entirely fill or differ from fill in one element chosen to be easily confused with it "
                 "(sign bit: -0.0 vs 0.0 / NaN sign; lowest bit: NaN payload; fill string repeated twice, extended, truncated, empty), fills biased to non-zero / NaN / -0.0 / non-empty strings, "
                 "store_empty_chunks on in a quarter of the cases; the key listing is taken after EVERY operation and compared with the model's key set, then every chunk and region is read back; "
@@ -284,7 +285,7 @@ PROPS = {
         "assumptions": ["regions in bounds of the chunk"],
     },
     "C20": {
-        "lean_props": ["ZarrsModel.Props.C20", "ZarrsModel.Props.C20Ops", "ZarrsModel.Props.C20List"],
+        "lean_props": ["ZarrsModel.Props.C20", "ZarrsModel.Props.C20Ops", "ZarrsModel.Props.C20List", "ZarrsModel.Props.C20PE"],
         "harness": "c20",
         "rule": "C01 configurations; after a short history, for each of 2-5 write operations (all six kinds) and reads: the operation is run through a fault-injecting store wrapper at concurrency 1; first "
                 "fault-free to count its N store operations and record the intended final state, then for EVERY k <= N with the k-th store operation failing: the result must be an error (never ok, never "
